@@ -262,7 +262,7 @@ func Run(r *mc.Run) {
 	}
 	add("non-digit-first", "-1", "0:-1", "1:-1", "-", "1:-", "-a")
 	// characters outside the alphabet at every position of upstream and revision
-	for _, c := range []string{"_", "!", "/", "é", "*", "=", ",", "(", "\x00", "\x7f"} {
+	for _, c := range []string{"_", "!", "/", "é", "*", "=", ",", "(", "\x00", "\x7f", "٣", "１", "²", "Ａ"} {
 		for _, v := range []string{"1.0", "1:1.0", "1.0-1"} {
 			for p := 1; p <= len(v); p++ {
 				if v[p-1] == ':' { // keep the epoch numeric: that is another class
@@ -301,10 +301,10 @@ func Run(r *mc.Run) {
 		})
 
 	// ---- C ----
-	sigma := gen.Chars("01a.+~-: ")
+	sigma := append(gen.Chars("01a.+~-: "), "٣") // plus a non-ASCII decimal digit (unicode.IsDigit is true for it)
 	L := r.Pick(5, 7)
 	// shard on the first two symbols
-	r.Scenario("C-accepted-roundtrip", map[string]interface{}{"alphabet": "01a.+~-: and space", "max_len": L}, len(sigma)*len(sigma)+1, func(sh int, st *mc.Stats) bool {
+	r.Scenario("C-accepted-roundtrip", map[string]interface{}{"alphabet": "01a.+~-: space and U+0663 (a non-ASCII decimal digit)", "max_len": L}, len(sigma)*len(sigma)+1, func(sh int, st *mc.Stats) bool {
 		visit := func(s string) bool {
 			st.Evals++
 			if _, err := version.Parse(s); err != nil {
